@@ -373,7 +373,7 @@ M('new_recv-aliases-template', ['C01'], Z, "                recvd = None if recv
 M('new_recv-aliases-template-2', ['C01'], Z, "            else:\n                recvd = recvd_new.copy()\n\n            self.recvd = recvd", "            else:\n                recvd = recvd_new\n\n            self.recvd = recvd", ['C01.R8'])
 M('template-prefilled', ['C01'], Z, "                self.recvd_new = {src: None for src, _ in topics}", "                self.recvd_new = {src: False for src, _ in topics}", ['C01.R8'])
 M('send-returns-stale-id', ['C02'], Z, "        return ZMQStateRecv(self.min_send_id)  # ZMQState for ZMQReceiver\n\n\nclass ZMQReceiver:", "        return ZMQStateRecv(msg_id)  # ZMQState for ZMQReceiver\n\n\nclass ZMQReceiver:", ['C02.R7'])
-M('mq-send-state-not-cleared', ['C02', 'C03'], MQ, "        self.send_state = None  # in case we get another send() without a matching recv()", "        pass  # in case we get another send() without a matching recv()", ['C02.R7'])
+M('mq-send-state-not-cleared', ['C02', 'C03'], MQ, "        self.send_state = None  # in case we get another send() without a matching recv()", "        pass  # in case we get another send() without a matching recv()", ['C02.R7', 'C03.R7'])
 M('mq-recv-state-not-cleared', ['C02'], MQ, "        self.recv_state            = None  # we already used up this recv_state", "        pass  # we already used up this recv_state", ['C02.R7'])
 M('mq-recv-ignores-state', ['C02'], MQ, "self.receiver.recv(self.recv_state if self.mq_msgid_sync else None, timeout)", "self.receiver.recv(None, timeout)", ['C02.R7'])
 M('send_push-no-uid', ['C04'], Z, "                msg0['uid'] = self.unique_id\n", "", ['C04.R6'])
